@@ -230,6 +230,32 @@ def run(ctx, chk):
         _, rs7, _ = c07.analyse(ctx.facts(cfg))
         IF7 = S(8, 'core.memory.io.interrupt_flag.0', ('field', 'devices::interrupts::InterruptFlag', '0', 'u8'))
         c07.wake_rule(chk, 'C08.7', cfg, rs7, IF7, file)
+    # ---- rule 8: HALT / STOP / EI / DI / RETI leave PC at the instruction that follows them (value level, both engines)
+    chk.rule('C08.8', 'D', 'resume address: after HALT, STOP, EI and DI the interpreter leaves PC = address of the following '
+             'instruction (STOP is two bytes), RETI leaves the popped address; translated code agrees', floor=5)
+    from .. import valsem, jitsem, sm83 as _sm
+    CTRL = {'HALT', 'STOP', 'EI', 'DI', 'RETI'}
+    resi = valsem.all_results(ctx)
+    resj = jitsem.all_results(ctx)
+    from .. import opspec as _osp
+    for enc, r in sorted(resi.items(), key=lambda kv: (kv[0][0] or 0, kv[0][1])):
+        mn = _sm.TABLE[enc]['mn'].split()[0]
+        if mn not in CTRL:
+            continue
+        name = _osp.enc_name(enc)
+        if r.undecided:
+            chk.error('C08.8 %s: undecided: %s' % (name, r.undecided))
+            continue
+        bad = [(c, msg) for c, msg in r.findings if c in ('PC', 'total', 'SP')]
+        for lbl, rj in resj.get(enc, []):
+            if rj.undecided:
+                chk.error('C08.8 %s (translated): undecided: %s' % (name, rj.undecided))
+            bad += [(c, 'translated code: ' + msg) for c, msg in rj.findings if c in ('PC', 'SP')]
+        if bad:
+            chk.fail('C08.8', '%s:%s' % (name, bad[0][0]), '%s: %s' % (_sm.TABLE[enc]['mn'], bad[0][1]),
+                     'src/interpreter/mod.rs', None)
+        else:
+            chk.ok('C08.8', name, sample={'instruction': _sm.TABLE[enc]['mn'], 'PC after': 'address + length (RETI: popped)'})
     # ---- rule 5
     fixed = headercfg.fixed_buffer_sizes(facts)
     lens = {b: v[1] for b, v in fixed.items() if v[0] == 'const'}
